@@ -325,6 +325,9 @@ pub fn probes() -> Vec<ProbeSrc> {
     v.push(simple("Reference/safe-projection-map", "C16/lifetime/Reference/safe-projection", "pub fn probe() -> i32 {\n    let part = { let whole = rc_ref_cell_reference((5i32, 6i32)); whole.map(|w| &mut w.0) };\n    let out = *part.borrow();\n    out\n}\n", None));
     v.push(simple("Reference/safe-from-mut-reference", "C16/lifetime/Reference/safe-from-reference", "pub fn probe() -> i32 {\n    let r: Reference<i32> = { let mut x = 5i32; Reference::from(&mut x) };\n    let out = *r.borrow();\n    out\n}\n", None));
     v.push(simple("Reference/safe-from-raw-pointer", "C16/lifetime/Reference/safe-from-pointer", "pub fn probe() -> i32 {\n    let r: Reference<i32> = { let mut x = 5i32; Reference::from(&mut x as *mut i32) };\n    let out = *r.borrow();\n    out\n}\n", None));
+    // the raw-pointer variants of ReferenceUnsafe are public, so the wrapper's field is what keeps safe code from wrapping one
+    v.push(simple("Reference/tuple-constructor", "C16/lifetime/Reference/public-field", "pub fn probe() -> i32 {\n    let r = { let mut x = 5i32; Reference(reference::ReferenceUnsafe::Ptr(&mut x as *mut i32)) };\n    let out = *r.borrow();\n    out\n}\n", None));
+    v.push(simple("Reference/field-assignment", "C16/lifetime/Reference/public-field", "pub fn probe() -> i32 {\n    let mut r = rc_ref_cell_reference(5i32);\n    {\n        let mut x = 6i32;\n        r.0 = reference::ReferenceUnsafe::Ptr(&mut x as *mut i32);\n    }\n    let out = *r.borrow();\n    out\n}\n", None));
     // an unsafe operation written inside a macro argument must still need the caller's own `unsafe`
     v.push(simple(
         "to_dyn/unsafe-call-in-argument",
@@ -346,6 +349,7 @@ pub fn probes() -> Vec<ProbeSrc> {
                 "to_dyn/unsafe-call-in-argument" | "static_reference/unsafe-call-in-initialiser" | "static_rw_lock_reference/unsafe-call-in-initialiser" | "static_mutex_reference/unsafe-call-in-initialiser" | "Reference::from_ptr/outside-unsafe" | "Reference::from_ptr_rw_lock/outside-unsafe" | "Reference::from_ptr_mutex/outside-unsafe" | "ReferenceUnsafe::Ptr/borrow-outside-unsafe" => &["E0133"],
                 "ReferenceUnsafe::Ptr/into-Reference" => &["E0277"],
                 "static_reference/non-static-initialiser" => &["E0435"],
+                "Reference/tuple-constructor" | "Reference/field-assignment" => &["E0423", "E0603", "E0616", "E0532"],
                 "static_reference/names-a-local" => &["unexpected end of macro invocation", "no rules expected", "E0435", "E0308"],
                 "Borrow/from-plain-reference" | "BorrowMut/from-plain-reference" => &["E0277", "E0308", "E0515", "E0597"],
                 // any rejection by the type system counts (mismatched types, unsatisfied trait bound, no such method)
